@@ -680,10 +680,24 @@ def _position_member(fn, nid, X, cvs, depth=0):
     if n.get('k') == 'member' and n.get('field') and fn.is_this_member(n['id']):
         return n['q']
     if n.get('k') == 'var' and n.get('vk') == 'local':
-        a = resolve_alias(fn, n['id'], depth=1)
-        if a is None or a['id'] == n['id']:
+        # a local cursor: initialised from the cursor, afterwards only advanced by the chunk size / re-set from a cursor expression
+        d = n['d']
+        inits = [v['init'] for m in fn.all_nodes() if m.get('k') == 'decl' for v in m['vars'] if v['d'] == d and isinstance(v.get('init'), int)]
+        if len(inits) != 1:
             return None
-        return _position_member(fn, a['id'], X, cvs, depth + 1)
+        f = _position_member(fn, inits[0], X, cvs, depth + 1)
+        if f is None:
+            return None
+        for m in fn.all_nodes():
+            if m.get('k') == 'assign' and E.carrier_of(fn, m['lhs']) == ('var', d):
+                if m.get('op') == '+=' and _is_chunk_size(fn, m['rhs'], X, cvs):
+                    continue
+                if m.get('op') == '=' and depth < 4 and _position_member(fn, m['rhs'], X, cvs, depth + 2) == f:
+                    continue
+                return None
+            if m.get('k') == 'unop' and m.get('op') in ('++', '--', '&') and E.carrier_of(fn, m['sub']) == ('var', d):
+                return None
+        return f
     if n.get('k') == 'binop' and n.get('op') == '+':
         for base, add in ((n['lhs'], n['rhs']), (n['rhs'], n['lhs'])):
             if _is_chunk_size(fn, add, X, cvs):
